@@ -18,6 +18,7 @@ import (
 	"github.com/elastos/Elastos.ELA/core/types/outputpayload"
 	"github.com/elastos/Elastos.ELA/core/types/payload"
 
+	"verifharness/ctxcheck"
 	"verifharness/elaenv"
 	"verifharness/lib"
 )
@@ -205,6 +206,24 @@ func main() {
 		Mismatch: "C01_corr.mismatches", Scope: "Z", PerShard: 400}
 	id := 0
 	next := func() int { id++; return id }
+
+	// wiring of the amount checks inside SanityCheck / ContextCheck (read from the source under test)
+	if m, err := ctxcheck.Load(run.Repo, "ContextCheck"); err != nil {
+		st.Fail("c01:check-wiring", "cannot analyse DefaultChecker.ContextCheck: "+err.Error(), nil)
+	} else if s, err := ctxcheck.Load(run.Repo, "SanityCheck"); err != nil {
+		st.Fail("c01:check-wiring", "cannot analyse DefaultChecker.SanityCheck: "+err.Error(), nil)
+	} else {
+		for _, p := range []string{
+			m.OnlyReceivers("DefaultChecker", "CoinBaseTransaction"),
+			m.Expect("CheckTransactionFee", []string{"references"}, []string{"GetTxReference", "SpecialContextCheck"}, nil),
+			s.OnlyReceivers("DefaultChecker"),
+			s.Expect("CheckTransactionOutput", []string{}, nil, nil),
+		} {
+			if p != "" {
+				st.Fail("c01:check-wiring", "SanityCheck/ContextCheck no longer run CheckTransactionOutput / CheckTransactionFee on every non-coinbase transaction: "+p, nil)
+			}
+		}
+	}
 
 	// all transaction types the factory knows
 	var types []common2.TxType
